@@ -119,7 +119,7 @@ PROPS = {
         "modules": ["ALock.Props.C10"],
         "prims": ["mutex", "sem", "rwlock"],
         "fields": ["out", "w", "words", "ev"],
-        "monitors": ["C10"],
+        "monitors": ["C10", "C05", "C06", "C07"],  # a waiter left asleep by a cancellation is a trace of it
         "assumptions": ["'as if never started' = same resources and same grants (exact accounting over live operations), not trace equality: a cancelled notified waiter causes one extra wake-up of the next waiter",
                         "polls are atomic"],
         "partial": ["interleavings where one thread drops a pending future while another releases the lock"],
